@@ -230,4 +230,39 @@ Proof.
   - cbn [length ra_ndim ra_col cp_prog nth]. change (2 =? 2) with true. cbv iota. cbn [rbind]. rewrite <- (HL c).
     destruct (cp_loop cp_prog c 0 ([n; c] :: map (@shape F) fs)); cbn [rbind]; [|reflexivity]. rewrite Hw. cbn [cpp_shape_col cp_prog]. destruct (weights_ok w c); reflexivity.
 Qed.
+
+(* ---------- PARAFAC2 (the orthonormality test is the model's orthonormalb, handed to the interpreter as its oracle) ---------- *)
+Variable Op : fops F.
+Lemma p2_loop_shapes rank K : forall (ps : list tensor) i (orth : nat -> bool),
+  (forall j, j < length ps -> orth (i + j) = orthonormalb Op (nth j ps (mk [] [])) rank) ->
+  p2_loop p2_prog rank orth [K] i (map (@shape F) ps) = p2_proj_shapes Op rank K ps.
+Proof.
+  induction ps as [|P ps IH]; intros i orth Ho; [reflexivity|].
+  cbn [map p2_loop p2_proj_shapes].
+  rewrite (IH (S i) orth) by (intros j Hj; replace (S i + j) with (i + S j) by lia; rewrite (Ho (S j)) by (cbn [length]; lia); reflexivity).
+  pose proof (Ho 0 ltac:(cbn [length]; lia)) as H0. rewrite Nat.add_0_r in H0. cbn [nth] in H0.
+  destruct (shape P) as [|j [|c [|? ?]]]; try reflexivity.
+  cbn [length p2_arity p2_proj_checks p2_orth p2_shape_col p2_prog existsb evc ev VRankVar nth negb orb]. change (2 =? 2) with true.
+  rewrite orb_false_r, negb_involutive, (Nat.eqb_sym rank c), H0. cbn [andb]. reflexivity.
+Qed.
+Theorem p2_prog_link : forall (w : option tensor) (fs ps : list tensor),
+  run_p2 p2_prog (option_map (@shape F) w) (map (@shape F) fs) (map (@shape F) ps) (fun r i => orthonormalb Op (nth i ps (mk [] [])) r)
+  = validate_parafac2 Op w fs ps.
+Proof.
+  intros w fs ps. unfold run_p2, validate_parafac2. rewrite !map_length. cbn [p2_nf p2_prog].
+  destruct fs as [|A [|B [|C [|D fs']]]]; try reflexivity.
+  cbn [length map nth Nat.eqb negb]. destruct (shape A) as [|nI [|rank rest]]; try reflexivity.
+  destruct (negb (length ps =? nI)); [reflexivity|].
+  cbn [p2_tail_from p2_fac_from p2_fac_arity p2_fac_checks p2_weights_first p2_prog skipn heads].
+  destruct (shape C) as [|K sc] eqn:EC; [reflexivity|]. cbn [option_map].
+  rewrite (p2_loop_shapes rank K ps 0 _ (fun j _ => eq_refl)).
+  destruct (p2_proj_shapes Op rank K ps) as [shp|]; cbn [rbind]; [|reflexivity].
+  assert (HB : forall T : tensor, ((length (shape T) =? 2) && negb (existsb (evc 0 0 [rank] (shape T)) [CNe VRankVar (VCur 1)])) = cols_are rank T).
+  { intros T. unfold cols_are. destruct (shape T) as [|a [|c [|? ?]]]; try reflexivity.
+    cbn [length existsb evc ev VRankVar nth]. change (2 =? 2) with true. rewrite orb_false_r, negb_involutive, (Nat.eqb_sym rank c). reflexivity. }
+  cbn [forallb]. rewrite (HB B). rewrite <- EC, (HB C). rewrite andb_true_r. cbn [negb orb].
+  assert (HW : match option_map (@shape F) w with None => true | Some (n :: _) => n =? rank | Some [] => false end = p2_weights_ok w rank).
+  { unfold p2_weights_ok. destruct w as [wt|]; cbn [option_map]; [|reflexivity]. destruct (shape wt); reflexivity. }
+  rewrite HW. reflexivity.
+Qed.
 End P.
